@@ -558,7 +558,7 @@ int main(int argc, char **argv)
     if (g_cfg.workers > 32) g_cfg.workers = 32;
     bool quick = g_cfg.tier == "quick";
     if (g_cfg.depth <= 0) g_cfg.depth = quick ? 1000 : 10000;
-    if (g_cfg.perDoc < 0) g_cfg.perDoc = quick ? 3 : 40;
+    if (g_cfg.perDoc < 0) g_cfg.perDoc = quick ? 3 : 24;
     if (g_cfg.sweepShare < 0) g_cfg.sweepShare = quick ? 5 : 100;
 
     {   // registers the QXmppExportData extension parsers (roster, vcard) as a real client does
@@ -816,8 +816,8 @@ int main(int argc, char **argv)
     }
     // ---- stage 1: scaling probes
     std::vector<int> depthSizes = quick ? std::vector<int> { 100, 400 } : std::vector<int> { 100, 200, 400, 800 };
-    std::vector<int> childSizes = quick ? std::vector<int> { 250, 1000 } : std::vector<int> { 1000, 2000, 4000, 8000, 16000 };
-    std::vector<int> lenSizes = quick ? std::vector<int> { 1 << 16, 1 << 18 } : std::vector<int> { 1 << 16, 1 << 18, 1 << 20, 1 << 22 };
+    std::vector<int> childSizes = quick ? std::vector<int> { 250, 1000 } : std::vector<int> { 1000, 2000, 4000, 8000 };
+    std::vector<int> lenSizes = quick ? std::vector<int> { 1 << 16, 1 << 18 } : std::vector<int> { 1 << 16, 1 << 18, 1 << 20 };
     if (g_cfg.probes) {
         std::vector<Work> work;
         for (size_t t = 0; t < templates().size(); t++)
@@ -906,7 +906,7 @@ int main(int argc, char **argv)
             for (size_t i = g_nRegress; i < g_docs.size(); i++)
                 if (i < g_nTop || m < perSub) work.push_back({ W_MUT, int(i), m, cheap[(g++) % cheap.size()], -1, 0, 0 });
         vh::Rng hr(g_cfg.seed * 77773ull + 5);
-        int quota = g_cfg.heavyQuota >= 0 ? g_cfg.heavyQuota : quick ? 8 : 60;
+        int quota = g_cfg.heavyQuota >= 0 ? g_cfg.heavyQuota : quick ? 8 : 40;
         for (int k : heavy)
             for (int q = 0; q < quota; q++) work.push_back({ W_MUT, int(g_nRegress + hr.below(uint32_t(g_docs.size() - g_nRegress))), 1000 + q, k, -1, 0, 0 });
         runStage("s3", work, 24);
